@@ -7,6 +7,8 @@ import common
 from common import Inconclusive, finish, log
 
 LEVEL = "model_checking"
+NET_KEYS = ("net:agreement", "net:heights-mismatch", "net:finalized-block-replaced", "net:finalized-above-precommitted",
+            "net:tip-mismatch:byzinvalid", "net:finalized-mismatch:byzinvalid", "net:temp-blocks-left:byzinvalid", "net:hang:invalid", "net:panic:invalid")
 
 def cfg_text(base, **kw):
     s = open(os.path.join(common.SPEC, "cfg", base + ".cfg")).read()
@@ -20,6 +22,83 @@ def write_cfg(ctx, name, text):
     p = ctx.path(name + ".cfg")
     open(p, "w").write(text)
     return p
+
+# ---------------------------------------------------------------------------------------------- metamorphic variants
+# Heights >= 256 / 65536 / 2^24 / near 2^32 and weights of 2^32 .. 2^61 cannot be enumerated by TLC (the model compares
+# small integers).  LiskBFT.tla only compares and subtracts heights and only adds and compares weights, so a tree whose
+# heights are all moved up by S (genesis height S) yields the same observation moved up by S, and replaced weights yield
+# the same heights and the mapped weight sums PROVIDED every threshold comparison of every validator subset is unchanged.
+# That proviso and the thresholds themselves (PrevoteThreshold of LiskBFT.tla: 2 * total \div 3 + 1) are evaluated here in
+# Python's unbounded integers for every parameter set of a configuration; cmd/c01 replays the TLC trees under the variants.
+U64 = 1 << 64
+
+def pvt(w):
+    return 2 * sum(w) // 3 + 1
+
+def xset(w, pcT, certT, w2, pcT2, certT2):
+    """image of the parameter set (w, pcT, certT) under the replacement weights w2; None when the replacement is not
+    faithful (a subset of validators would compare differently with a threshold, or the code's uint64 range is left)"""
+    n, T2 = len(w), sum(w2)
+    if len(w2) != n or any((a > 0) != (b > 0) for a, b in zip(w, w2)) or 2 * T2 >= U64:
+        return None
+    if not (T2 // 3 + 1 <= pcT2 <= T2 and T2 // 3 + 1 <= certT2 <= T2):
+        return None
+    m = {}
+    for mask in range(1 << n):
+        s = sum(w[i] for i in range(n) if mask >> i & 1)
+        s2 = sum(w2[i] for i in range(n) if mask >> i & 1)
+        if m.setdefault(s, s2) != s2:
+            return None
+        if (s >= pvt(w)) != (s2 >= pvt(w2)) or (s >= pcT) != (s2 >= pcT2):
+            return None
+    return dict(w=list(w2), pcT=pcT2, certT=certT2, pvT=pvt(w2), map={str(k): v for k, v in sorted(m.items())})
+
+def wfamily(kind, arg, sets):
+    """all parameter sets of a configuration under one weight replacement, or None"""
+    res = []
+    for (w, pcT, certT) in sets:
+        if kind == "x":
+            x = xset(w, pcT, certT, [arg * a for a in w], arg * pcT, arg * certT)
+        else:
+            # "edge": (B, B, B-1) has the subset/threshold table of (2, 2, 1) and two subsets exactly at / one below the
+            # prevote threshold 2B; the precommit threshold is the image of the smallest weight sum that reaches it
+            if list(w) != [2, 2, 1]:
+                return None
+            w2 = [arg, arg, arg - 1]
+            img = {0: 0, 1: arg - 1, 2: arg, 3: 2 * arg - 1, 4: 2 * arg, 5: 3 * arg - 1}
+            x = xset(w, pcT, certT, w2, img[min(max(pcT, 0), 5)], img[min(max(certT, 0), 5)])
+        if x is None:
+            return None
+        res.append(x)
+    return res
+
+def variants(hcfg, maxh):
+    """the variants of one harness configuration (hcfg: nval, initW, initPCT, choices); variants[0] is the identity"""
+    sets = [(hcfg["initW"], hcfg["initPCT"], hcfg["initPCT"])] + [(c["w"], c["pcT"], c["certT"]) for c in hcfg.get("choices") or []]
+    top = (1 << 32) - 3 - maxh            # the highest genesis height at which maxHeightGenerated = height + 1 still fits uint32
+    plan = [("id", 0, ("x", 1)), ("h256", 253, ("x", 1)), ("h65536-w2^32", 65533, ("x", (1 << 32) + 1)), ("h2^24", (1 << 24) - 3, ("x", 1)),
+            ("h2^32", top, ("x", 1)), ("w2^60", 0, ("x", 1 << 60)), ("edge2^61", 0, ("edge", 1 << 61)), ("h256-edge2^32", 253, ("edge", (1 << 32) + 5)),
+            ("h2^32-w2^60", top, ("x", 1 << 60)), ("h65536-w2^32+7", 65533, ("x", (1 << 32) + 7))]
+    if os.environ.get("VERIF_EXPERIMENTAL"):
+        # total weight >= 2^63 (still a valid uint64 sum): not part of the default run, see the report of round 13
+        plan.append(("exp-total>=2^63", 0, ("big", 1 << 62)))
+    res = []
+    for name, shift, (kind, arg) in plan:
+        if kind == "big":
+            if [s[0] for s in sets] != [[2, 2, 1]]:
+                continue
+            w, pcT, certT = sets[0]
+            w2 = [arg, arg, arg - 1]
+            img = {0: 0, 1: arg - 1, 2: arg, 3: 2 * arg - 1, 4: 2 * arg, 5: 3 * arg - 1}
+            fam = [dict(w=w2, pcT=img[pcT], certT=img[certT], pvT=pvt(w2), map={str(k): v for k, v in img.items()})]
+        else:
+            fam = wfamily(kind, arg, sets)
+        if fam is None:
+            continue
+        res.append(dict(name=name, shift=shift, wname="%s%d" % (kind, arg), sets=fam))
+    if not res or res[0]["name"] != "id":
+        raise Inconclusive("identity variant not faithful: internal error")
+    return res
 
 def run_model(ctx, name, text, harness_cfg, binp, timeout, simulate=None, depth=None, workers=16, expect_violation=False):
     cfg = write_cfg(ctx, name, text)
@@ -69,7 +148,13 @@ def run(ctx):
     choices221 = [dict(pcT=3, certT=3, w=[2, 2, 0]), dict(pcT=4, certT=4, w=[3, 2, 1])]
     runs = []
     if ctx.tier == "quick":
-        runs.append(("q221", cfg_text("LiskBFTTree_q", DumpEvery=400, DumpFinalEvery=20), hc221, dict(timeout=900)))
+        runs.append(("q221", cfg_text("LiskBFTTree_q", DumpEvery=400, DumpFinalEvery=20), hc221, dict(timeout=2700)))   # 70 s on an idle machine; the cap only matters under heavy load
+        # one parameter change somewhere in the tree (a fork may carry different parameters at one height), exhaustively ...
+        runs.append(("qchg", cfg_text("LiskBFTTree_q", ParamChoices="Choices221", MaxChg=1, MaxBlocks=6, DumpEvery=60, DumpFinalEvery=3),
+                     dict(hc221, choices=choices221), dict(timeout=900, workers=4)))
+        # ... and random walks deeper than the vote window (it slides; parameters and vote entries are pruned), two changes
+        runs.append(("qsim", cfg_text("LiskBFTTree_q", ParamChoices="Choices221", MaxChg=2, MaxBlocks=18, MaxHeight=15, DumpEvery=4, DumpFinalEvery=1),
+                     dict(hc221, choices=choices221), dict(timeout=900, simulate=300, depth=20, workers=1)))
     else:
         runs.append(("t221", cfg_text("LiskBFTTree_q", MaxBlocks=10, MaxHeight=7, DumpEvery=3000, DumpFinalEvery=150), hc221, dict(timeout=3000)))   # 6.0 M states
         runs.append(("t221pc2", cfg_text("LiskBFTTree_q", InitPCT=2, MaxBlocks=9, MaxHeight=7, DumpEvery=2000, DumpFinalEvery=150),
@@ -84,14 +169,28 @@ def run(ctx):
         # deeper than the exhaustive bounds, window shorter than the chain (pruning of the window is exercised)
         runs.append(("sim", cfg_text("LiskBFTTree_q", Win=9, MaxBlocks=18, MaxHeight=15, DumpEvery=4, DumpFinalEvery=1),
                      dict(hc221, win=9), dict(timeout=900, simulate=3000 if ctx.tier == "thorough" else 300, depth=20, workers=1)))
-    total = dict(trees=0, distinct_paths=0, steps=0, paths_with_finality=0, pairs_checked=0)
+    total = dict(trees=0, distinct_paths=0, steps=0, paths_with_finality=0, pairs_checked=0,
+                 tree_mode_trees=0, tree_mode_steps=0, tree_mode_trees_with_a_fork=0, tree_mode_pairs_checked=0, tree_mode_trees_with_finality=0,
+                 headers_contradicting_probes=0, headers_contradicting_probes_true=0)
+    vfin = {}; vchg = {}; vtrees = {}; max_h = 0; max_w = 0; slid = 0
     samples = []
     for name, text, hcfg, kw in runs:
+        maxh = int(re.search(r"(?m)^\s*MaxHeight\s*=\s*(\d+)", text).group(1))
+        hcfg = dict(hcfg, variants=variants(hcfg, maxh))
         r, trees, res = run_model(ctx, name, text, hcfg, binp, **kw)
         for k in total:
             total[k] += res.get(k, 0)
-        log("[c01] %s: trees=%d paths=%d finality=%d pairs=%d violations=%d" % (
-            name, res["trees"], res["distinct_paths"], res["paths_with_finality"], res["pairs_checked"], len(res.get("violations") or [])))
+        for d, k in ((vtrees, "variant_trees"), (vfin, "variant_trees_with_finality"), (vchg, "variant_trees_with_parameter_change")):
+            for vn, c in (res.get(k) or {}).items():
+                d[vn] = d.get(vn, 0) + c
+        for vn in [v["name"] for v in hcfg["variants"]]:
+            vtrees.setdefault(vn, 0); vfin.setdefault(vn, 0)
+        max_h = max(max_h, res.get("max_real_height", 0)); max_w = max(max_w, res.get("max_real_weight", 0))
+        slid += sum(1 for t in trees if max(b["h"] for b in t) > hcfg["win"])
+        log("[c01] %s: trees=%d paths=%d finality=%d pairs=%d | one module per tree: trees=%d forks=%d steps=%d finality=%d contradiction probes=%d (true %d) | violations=%d" % (
+            name, res["trees"], res["distinct_paths"], res["paths_with_finality"], res["pairs_checked"],
+            res.get("tree_mode_trees", 0), res.get("tree_mode_trees_with_a_fork", 0), res.get("tree_mode_steps", 0), res.get("tree_mode_trees_with_finality", 0),
+            res.get("headers_contradicting_probes", 0), res.get("headers_contradicting_probes_true", 0), len(res.get("violations") or [])))
         for v in res.get("violations") or []:
             ctx.violation(v["key"], v["what"], dict(tree=v.get("replay"), cfg=hcfg))
         if trees and len(samples) < 2:
@@ -119,10 +218,32 @@ def run(ctx):
     # system level: a network of honest real nodes (spec/Net.tla; TLC checks Agreement and TreeSafety on the model):
     # the finalized prefixes of all real nodes agree on real block ids, BFT heights per node follow the model
     from props import net
-    netcov = net.run_net(ctx, lambda k: k.startswith(("net:agreement", "net:heights-mismatch")), parts=("honest_sim", "byz_exh", "byz_sim", "chg_sim"))
+    # C01 owns: agreement and permanence of finalized blocks on real ids, a node that finalizes above every precommitted height
+    # its BFT module reported, the BFT heights per node, and everything observed after a block that breaks a BFT rule of
+    # verifyBlock was offered (Net.tla ByzForgeInvalid: the node must stay where it is)
+    netcov = net.run_net(ctx, lambda k: k.startswith(NET_KEYS), parts=("honest_sim", "byz_exh", "byz_sim", "chg_byz_sim"), invalid=True)
     if not ctx.violations and (total["paths_with_finality"] == 0):
         raise Inconclusive("no replayed path reached finality: vacuous")
+    if not ctx.violations:
+        # non-vacuity of the additions of round 13
+        empty = sorted(vn for vn in vtrees if vfin.get(vn, 0) == 0)
+        if total["tree_mode_trees_with_a_fork"] == 0 or total["tree_mode_trees_with_finality"] == 0:
+            raise Inconclusive("no fork tree with finality went through one shared module: vacuous")
+        if empty:
+            raise Inconclusive("height / weight variants without a tree that reaches finality: %s: vacuous" % empty)
+        if sum(vchg.values()) == 0 or (ctx.tier == "quick" and slid == 0):
+            raise Inconclusive("no replayed tree with a parameter change / with a chain longer than the vote window: vacuous")
+        if total["headers_contradicting_probes_true"] == 0:
+            raise Inconclusive("no pair of contradicting headers among the probed trees: vacuous")
+        if max_h < (1 << 32) - 64 or max_w < (1 << 60):
+            raise Inconclusive("the height / weight variants did not reach the boundary values (%d, %d): vacuous" % (max_h, max_w))
     cov = dict(traces_validated_against_impl=total["distinct_paths"], samples=samples,
+               trees_through_one_shared_module=total["tree_mode_trees"], of_which_with_a_fork=total["tree_mode_trees_with_a_fork"],
+               shared_module_steps=total["tree_mode_steps"], shared_module_trees_with_finality=total["tree_mode_trees_with_finality"],
+               shared_module_real_pairs_checked_for_safety=total["tree_mode_pairs_checked"],
+               variant_trees=vtrees, variant_trees_with_finality=vfin, variant_trees_with_parameter_change=vchg,
+               trees_longer_than_the_vote_window=slid, max_real_height=max_h, max_real_weight=max_w,
+               headers_contradicting_probes=total["headers_contradicting_probes"], headers_contradicting_probes_true=total["headers_contradicting_probes_true"],
                replayed_trees=total["trees"], replayed_steps=total["steps"],
                paths_with_finality=total["paths_with_finality"], trace_events_validated=total.get("trace_events", 0), real_pairs_checked_for_safety=total["pairs_checked"],
                exhaustive=True, **netcov,
